@@ -4,6 +4,7 @@
 #include "proj.h"
 #include <climits>
 #include <memory>
+#include <signal.h>
 using namespace soplex;
 using namespace vt;
 
@@ -62,12 +63,32 @@ static int intClass(Rng& g, int lo, int up, std::string& cls)
    case 3: cls = "above"; return up < INT_MAX ? up + 1 : up;
    case 4: cls = "intmin"; return INT_MIN;
    case 5: cls = "intmax"; return INT_MAX;
-   default: cls = "inside"; return up - lo > 1000 ? lo + g.R(0, 1000) : g.R(lo, up);
+   default: cls = "inside"; return (long)up - (long)lo > 1000 ? lo + g.R(0, 1000) : g.R(lo, up);
    }
 }
 static bool skipInt(int i) { return i == SoPlex::VERBOSITY; }
 static bool skipReal(int i) { return i == SoPlex::INFTY; }                     // changes the meaning of every infinite bound; out of scope
 
+
+static std::string mutateText(Rng& g, const std::string& in, std::string& what)
+{
+   std::string t = in; std::vector<std::string> lines; { std::istringstream is(in); std::string l; while(std::getline(is, l)) lines.push_back(l); }
+   auto join = [&]() { std::string o; for(auto& l : lines) { o += l; o += '\n'; } return o; };
+   switch(g.R(0, 9))
+   {
+   case 0: what = "truncate"; return t.substr(0, (size_t)g.R(0, (int)t.size()));
+   case 1: what = "deleteLine"; if(!lines.empty()) lines.erase(lines.begin() + g.R(0, (int)lines.size() - 1)); return join();
+   case 2: what = "nulByte"; if(!t.empty()) t[(size_t)g.R(0, (int)t.size() - 1)] = '\0'; return t;
+   case 3: what = "flipChar"; if(!t.empty()) t[(size_t)g.R(0, (int)t.size() - 1)] = (char)g.R(1, 255); return t;
+   case 4: { what = "longLine"; std::string big((size_t)g.R(1000, 40000), 'x'); if(!lines.empty()) lines[(size_t)g.R(0, (int)lines.size() - 1)] += big; return join(); }
+   case 5: { what = "hugeNumber"; size_t p = t.find("= "); if(p != std::string::npos) t.insert(p + 2, g.coin() ? "99999999999999999999999999" : "1e99999"); return t; }
+   case 6: what = "empty"; return "";
+   case 7: { what = "binaryJunk"; std::string j; int n = g.R(1, 300); for(int i = 0; i < n; i++) j += (char)g.R(0, 255); return t.substr(0, t.size() / 2) + j; }
+   case 8: { what = "badValue"; size_t p = t.find("= "); if(p != std::string::npos) t.insert(p + 2, g.coin() ? "nan" : (g.coin() ? "-inf" : "abc")); return t; }
+   default: { what = "noEquals"; size_t p = t.find('='); if(p != std::string::npos) t[p] = ' '; return t; }
+   }
+}
+static void onAlarmP(int) { crashLine("loadSettingsFile did not return within 10 s (hang)"); _exit(0); }
 static void loadSomeLP(SoPlex& s, Rng& g)
 {
    int n = g.R(1, 3), m = g.R(1, 3);
@@ -75,8 +96,10 @@ static void loadSomeLP(SoPlex& s, Rng& g)
    for(int i = 0; i < m; i++) { DSVector v; for(int j = 0; j < n; j++) if(g.coin()) v.add(j, (double)g.R(1, 3)); s.addRowReal(LPRow(0.0, v, (double)g.R(1, 6))); }
 }
 
+static bool g_fuzz = false;
 static void run(Rng& g, int nexec, int len, const std::string& tmpdir)
 {
+   signal(SIGALRM, onAlarmP);
    typedef SoPlex::Settings ST;
    for(int e = 0; e < nexec; e++)
    {
@@ -146,6 +169,15 @@ static void run(Rng& g, int nexec, int len, const std::string& tmpdir)
             J ev; ev.s("a", "saveload").b("onlyChanged", onlyChanged).b("ret", ok && ok2).raw("loaded", allVals(f)); emit(*s, ev);
             remove(fn.c_str());
          }
+         else if(k < 93 && g_fuzz)
+         {
+            // C13: a settings file with arbitrary content
+            std::string fn = tmpdir + "/f" + std::to_string(e) + "_" + std::to_string(step) + ".set"; s->saveSettingsFile(fn.c_str(), g.coin());
+            std::ifstream f(fn, std::ios::binary); std::stringstream ss; ss << f.rdbuf(); std::string what = "none", text = ss.str(); if(g.coin(4, 5)) text = mutateText(g, text, what);
+            { FILE* o = fopen(fn.c_str(), "wb"); if(o) { fwrite(text.data(), 1, text.size(), o); fclose(o); } }
+            pending() = "loadSettingsFile " + what; alarm(10); bool ret = s->loadSettingsFile(fn.c_str()); alarm(0); s->setIntParam(SoPlex::VERBOSITY, 0);
+            J ev; ev.s("a", "fuzzload").s("mutation", what).b("ret", ret); emit(*s, ev); remove(fn.c_str());
+         }
          else if(k < 95) { pending() = "reset"; s->resetSettings(true); s->setIntParam(SoPlex::VERBOSITY, 0); J ev; ev.s("a", "reset"); emit(*s, ev); }
          else
          {
@@ -163,7 +195,7 @@ int main(int argc, char** argv)
    if(argc < 6) { fprintf(stderr, "usage: params_drv <workload> <seed> <nexec> <len> <out>\n"); return 2; }
    unsigned long seed = strtoul(argv[2], nullptr, 10); int nexec = atoi(argv[3]), len = atoi(argv[4]);
    T().open(argv[5]); installCrashHandlers();
-   Rng g(seed);
+   Rng g(seed); g_fuzz = std::string(argv[1]) == "fuzz";
    std::string tmpdir = std::string(argv[5]) + ".d"; std::string cmd = "mkdir -p '" + tmpdir + "'"; if(system(cmd.c_str()) != 0) return 2;
    run(g, nexec, len, tmpdir);
    cmd = "rm -rf '" + tmpdir + "'"; (void)!system(cmd.c_str());
